@@ -4,7 +4,9 @@ from __future__ import annotations
 
 import inspect
 from contextlib import suppress
+from functools import partial
 from typing import TYPE_CHECKING
+from typing import Callable
 
 from liquid2.exceptions import TemplateNotFoundError
 from liquid2.loader import BaseLoader
@@ -45,21 +47,15 @@ class ChoiceLoader(BaseLoader):
             except TemplateNotFoundError:
                 continue
 
-            uptodate = source.uptodate
-            if i == 0 or uptodate is None:
+            if i == 0:
                 return source
 
-            earlier = self.loaders[:i]
-
-            def _uptodate() -> bool:
-                # Stale if a loader with a higher priority has the template now.
-                for other in earlier:
-                    with suppress(TemplateNotFoundError):
-                        other.get_source(env, template_name, context=context, **kwargs)
-                        return False
-                return uptodate() is True  # type: ignore[misc]
-
-            return source._replace(uptodate=_uptodate)
+            # Stale if a loader with a higher priority has the template now.
+            return source._replace(
+                uptodate=partial(
+                    self._is_fresh, env, template_name, i, source.uptodate, kwargs
+                )
+            )
 
         raise TemplateNotFoundError(template_name)
 
@@ -80,28 +76,57 @@ class ChoiceLoader(BaseLoader):
             except TemplateNotFoundError:
                 continue
 
-            uptodate = source.uptodate
-            if i == 0 or uptodate is None:
+            if i == 0:
                 return source
 
-            earlier = self.loaders[:i]
-
-            async def _uptodate() -> bool:
-                # Stale if a loader with a higher priority has the template now.
-                for other in earlier:
-                    with suppress(TemplateNotFoundError):
-                        await other.get_source_async(
-                            env, template_name, context=context, **kwargs
-                        )
-                        return False
-                fresh = uptodate()
-                if inspect.isawaitable(fresh):
-                    fresh = await fresh
-                return fresh is True
-
-            return source._replace(uptodate=_uptodate)
+            return source._replace(
+                uptodate=partial(
+                    self._is_fresh_async,
+                    env,
+                    template_name,
+                    i,
+                    source.uptodate,
+                    kwargs,
+                )
+            )
 
         raise TemplateNotFoundError(template_name)
+
+    # `uptodate` is kept by a cached template for as long as it lives and is pickled
+    # with it: a partial of a method, holding no render context.
+
+    def _is_fresh(
+        self,
+        env: Environment,
+        template_name: str,
+        index: int,
+        uptodate: Callable[[], object] | None,
+        kwargs: dict[str, object],
+    ) -> bool:
+        for loader in self.loaders[:index]:
+            with suppress(TemplateNotFoundError):
+                loader.get_source(env, template_name, **kwargs)
+                return False
+        return uptodate is None or uptodate() is True
+
+    async def _is_fresh_async(
+        self,
+        env: Environment,
+        template_name: str,
+        index: int,
+        uptodate: Callable[[], object] | None,
+        kwargs: dict[str, object],
+    ) -> bool:
+        for loader in self.loaders[:index]:
+            with suppress(TemplateNotFoundError):
+                await loader.get_source_async(env, template_name, **kwargs)
+                return False
+        if uptodate is None:
+            return True
+        fresh = uptodate()
+        if inspect.isawaitable(fresh):
+            fresh = await fresh
+        return fresh is True
 
 
 class CachingChoiceLoader(CachingLoaderMixin, ChoiceLoader):
